@@ -5,6 +5,15 @@ HARNESSES = [
     COMMON["dec13"]("record13_mem", [], ns=((48, "quick"), (96, "thorough")), checks=M),
     COMMON["api_recv"](only=None),
     COMMON["hs_dispatch"](),
+    dict(name="hs_frag13", dir="C06", src="hs_msg13.c", checks=M,
+         renames={"matrixssl/tls13Decode.c": ["tls13ParseClientHello", "tls13ParseServerHello", "tls13ClientActivateHsReadKeys", "tls13ParseCertificateRequest",
+                                              "tls13ParseCertificate", "tls13ParseCertificateVerify", "tls13ParseFinished", "tls13ParseNewSessionTicket"],
+                  "matrixssl/hsNegotiateVersion.c": ["tlsServerNegotiateVersion"]},
+         units=["core/src/psbuf.c", "matrixssl/hsNegotiateVersion.c"],
+         functions=["tls13ParseHandshakeMessage", "tls13FragMessageReadInit", "psParseBufCopyN"], sources=["matrixssl/tls13Decode.c", "core/src/psbuf.c"],
+         assumptions=["hs_frag13: the first 12 bytes of a TLS 1.3 handshake message whose announced length (any 24-bit value) exceeds what is in the record; arbitrary session state"],
+         unwind=20, defs={"VF_FRAG": 1},
+         cases=[dict(name="any", defs={"VF_VER": "(v_tls_1_3|v_tls_negotiated)"})]),
     dict(name="supp_versions", src="supp_versions.c", checks=M, units=["matrixssl/hsNegotiateVersion.c"],
          functions=["tls13ParseSupportedVersions", "psVerFromEncodingMajMin"], sources=["matrixssl/tls13DecodeExt.c"],
          assumptions=["supp_versions: extension body is an object of exactly VF_N bytes (sizes 2..9 enumerated), contents arbitrary"],
